@@ -107,6 +107,8 @@ class Ctx:
         (several checks may run concurrently)"""
         import fcntl
         os.makedirs(WORK, exist_ok=True)
+        if not targets:
+            return 0, ""   # never a bare `make`: that would build every file under coq/, whatever its state
         with open(os.path.join(WORK, "coq.lock"), "w") as lk:
             fcntl.flock(lk, fcntl.LOCK_EX)
             try:
@@ -134,6 +136,8 @@ class Ctx:
 
         returns (ok, theorems, assumptions, log)."""
         pf = "Properties/%s.v" % self.prop
+        if not os.path.exists(os.path.join(COQ, pf)):
+            return False, [], [], "coq/%s does not exist" % pf
         deps = coq_deps(pf)
         rc, out = self.coq_make([d[:-2] + ".vo" for d in deps if d != pf])
         if rc != 0:
